@@ -302,19 +302,19 @@ func (c *IPClient) measureClockOffsetIP(ctx context.Context, mtrcs *ipClientMetr
 			slog.Any("data", ntp.PacketLogValuer{Pkt: &ntpresp}),
 		)
 
-		sRxTime := ntp.TimeFromTime64(ntpresp.ReceiveTime, cTxTime0)
-		sTxTime := ntp.TimeFromTime64(ntpresp.TransmitTime, cTxTime0)
-
+		// The transmit time is resolved relative to the receive time it
+		// belongs to, so that "transmit before receive" is recognized also when
+		// the two lie on different sides of the era pivot of cTxTime0.
 		var t0, t1, t2, t3 time.Time
 		if interleavedResp {
 			t0 = ntp.TimeFromTime64(c.prev.cTxTime, cTxTime0)
 			t1 = ntp.TimeFromTime64(c.prev.sRxTime, cTxTime0)
-			t2 = sTxTime
+			t2 = ntp.TimeFromTime64(ntpresp.TransmitTime, t1)
 			t3 = ntp.TimeFromTime64(c.prev.cRxTime, cTxTime0)
 		} else {
 			t0 = cTxTime1
-			t1 = sRxTime
-			t2 = sTxTime
+			t1 = ntp.TimeFromTime64(ntpresp.ReceiveTime, cTxTime0)
+			t2 = ntp.TimeFromTime64(ntpresp.TransmitTime, t1)
 			t3 = cRxTime
 		}
 
